@@ -218,6 +218,29 @@ def model_gen(run, module, cfgs, d, rng, limit, want_cancel=None, maxt=5, maxcal
     return out
 
 
+QUEUE_CFG = """CONSTANTS
+ Nodes = {%s}
+ Vals = {1, 2}
+ MaxLen = %d
+SPECIFICATION Spec
+INVARIANT Refines
+INVARIANT HeadValue
+INVARIANT EmptyIff
+INVARIANT TailIsLast
+INVARIANT PoolDisjoint
+CHECK_DEADLOCK FALSE
+"""
+
+
+def queue_mc(run, th):
+    """pipe/queue.go (linked nodes + pool) refines the sequence used by Unbound.tla."""
+    n, m = (5, 4) if th else (4, 3)
+    r = run_tlc("Queue", QUEUE_CFG % (",".join(str(i) for i in range(1, n + 1)), m), timeout=900)
+    run.add_mc("Queue", r, {"nodes": n, "maxlen": m})
+    if r.violated:
+        raise Infra("model error: Queue.tla violates " + r.violated)
+
+
 def stage_mc(run, pid, cfgs, d, timeout=1500):
     return model_mc(run, "Stage", pid, cfgs, d, timeout)
 
@@ -246,9 +269,10 @@ def check(run, replay=None):
         tasks.append(lambda: stage_gen(run, [dict(c) for c in gen], d, grng, glimit, want_cancel=want))
         ucfgs = []
         if pid == "C08":
-            ucfgs = [C(kind="New", cap=cap, inputs=[list(range(1, (5 if th else 4) - (1 if cap == 3 else 0)))]) for cap in [0, 1, 2, 3]]
+            ucfgs = [C(kind="New", cap=cap, inputs=[list(range(1, (7 if th else 4) - (1 if cap == 3 else 0)))]) for cap in [0, 1, 2, 3]]
             urng = random.Random(rng.random())
             tasks.append(lambda: model_mc(run, "Unbound", pid, ucfgs, d))
+            tasks.append(lambda: queue_mc(run, th))
             tasks.append(lambda: model_gen(run, "Unbound", ucfgs, d, urng, glimit))
         ntl = len(tasks)
         if pid in ("C06", "C07", "C11", "C12", "C13"):
@@ -275,7 +299,7 @@ def check(run, replay=None):
             w = dict(send=4, close=1, recv=4, cancel=(0 if pid == "C10" else 1), release=4, advance=0)
             scheds += rand_scheds(rnd, rng, nrand, ["drain", "closewait"] + (["cancel"] if pid == "C09" else []), weights=w)
         elif pid == "C08":
-            for s in res[3]:
+            for s in res[4]:
                 ended = any(c["c"] in ("cancel", "close") for c in s["cmds"])
                 scheds.append(dict(s, epilogue="closewait" if ended else "cancel"))
                 if not ended:
